@@ -14,7 +14,7 @@
    op      : to_adjoint / to_basic_gates / + / reverse / stats   (C15), and the rest of the public surface:
              concat_mismatch (+ and += on different qubit counts), push_front, by_name (the add_gate family), counts
              (num_gates_of_type), stats_views (into_array, Display), adjoint_inplace (Circuit::adjoint, Gate::adjoint),
-             rowops (impl RowOps for Circuit)
+             rowops (impl RowOps for Circuit), layouts (all of reverse / adjoint / + / == on circuits whose deque is wrapped)
    note    : something the harness could not set up (QASM text rejected by the front end); counted only *)
 EXTENDS TraceLib, ToGraph, FiniteSets, FiniteSetsExt
 
@@ -25,7 +25,7 @@ Init == l = 1 /\ c = Empty /\ rc = Empty /\ sem = <<>> /\ f0 = -1 /\ viol = <<>>
         /\ stats = [circuits |-> 0, translations |-> 0, ops |-> 0, nontrivial |-> 0, l1same |-> 0,
                     explicit_vars |-> 0, shared_var |-> 0, direct |-> 0, via_qasm |-> 0, simp_postsel |-> 0,
                     unknown_gate_runs |-> 0, unknown_gate_noop |-> 0, addassign_mismatch_silent |-> 0,
-                    unknown_name_silent |-> 0, notes |-> 0]
+                    unknown_name_silent |-> 0, notes |-> 0, wrapped_layouts |-> 0]
 
 (* SWITCH (audit item 11).  `impl AddAssign<&Circuit> for Circuit` has no qubit-count check: `a += &b` with b on another
    number of qubits silently returns a circuit (whose gates may address qubits that do not exist), while every `+`
@@ -87,6 +87,20 @@ OpOK(e) ==
          /\ CircFromAbs(e.out.inplace) = CAdjoint(c) /\ e.out.inplace = e.out.to_adjoint
          /\ Len(e.out.gatewise) = Len(c.gates)
          /\ \A i \in 1..Len(c.gates) : GateFromAbs(e.out.gatewise[i]) = AdjGate(c.gates[i])
+    [] e.op = "layouts" ->
+         \* the same gate sequence built in different ways (push_back only / push_front in reverse order / from the middle outwards /
+         \* the first gate last, to the front / two gates too many popped off again): `gates` is a VecDeque, after a push_front its
+         \* buffer is wrapped.  Whatever the layout: the circuits are equal, ONE in-place reverse gives the reversed sequence, the
+         \* in-place adjoint is the adjoint, c + adjoint is c followed by its adjoint and denotes the identity
+         LET adj == CAdjoint(c)
+             rev == [c EXCEPT !.gates = [i \in 1..Len(c.gates) |-> c.gates[Len(c.gates) + 1 - i]]] IN
+         \A i \in 1..Len(e.out.layouts) :
+            LET y == e.out.layouts[i] IN
+            /\ CircFromAbs(y.built) = c /\ y.eq_base /\ y.stats_same /\ y.basic = e.out.basic_base
+            /\ CircFromAbs(y.rev_once) = rev /\ CircFromAbs(y.rev_twice) = c
+            /\ CircFromAbs(y.adj_inplace) = adj /\ CircFromAbs(y.to_adjoint) = adj
+            /\ CircFromAbs(y.plus_adj) = Concat(c, adj) /\ y.plus_adj2 = y.plus_adj
+            /\ (y.mode = "middle_out" /\ IsUnitary(c) => SemOf(CircFromAbs(y.plus_adj)) = IdTensor(c.n))
     [] e.op = "rowops" ->
          LET base == CircFromAbs(e.out.base) IN
          \A i \in 1..Len(e.out.ops) :
@@ -153,7 +167,10 @@ Step(e) ==
                     \o viol
          /\ stats' = [stats EXCEPT !.ops = @ + 1, !.nontrivial = @ + (IF Len(c.gates) > 0 THEN 1 ELSE 0),
                                    !.addassign_mismatch_silent = @ + B(e.op = "concat_mismatch" /\ e.res = "ok" /\ e.out.results.sum_assign = "ok"),
-                                   !.unknown_name_silent = @ + B(e.op = "by_name" /\ e.res = "ok" /\ e.out.unknown_kind = "UnknownGate")]
+                                   !.unknown_name_silent = @ + B(e.op = "by_name" /\ e.res = "ok" /\ e.out.unknown_kind = "UnknownGate"),
+                                   \* non-vacuity of the layouts op: how many of the built circuits really were wrapped around the buffer end
+                                   !.wrapped_layouts = @ + (IF e.op = "layouts" /\ e.res = "ok"
+                                                            THEN Cardinality({i \in 1..Len(e.out.layouts) : e.out.layouts[i].wrapped}) ELSE 0)]
          /\ UNCHANGED <<c, rc, sem, f0, drift>>
 Next == \/ /\ l <= NLines /\ Step(Rec[l]) /\ l' = l + 1
         \/ /\ l = NLines + 1 /\ Report(l, viol, drift, stats) /\ l' = l + 1
